@@ -52,10 +52,17 @@ class World:
         m.seq = ns.nn.Sequential(ns.nn.Sequential(ns.nn.Module()))
         hosts = [m, m.inner, m.inner.deep, m.seq.submodules()[0].submodules()[0], m.inner.deep]       # parameters live at several depths
         self.params = []
+        late = []
         for i, (l, v) in enumerate(zip(LEAVES, self.leaf_vals)):
             p = ns.nn.Parameter(ns.Tensor(v.copy(), requires_grad=l["req"]))
-            setattr(hosts[i % len(hosts)], f"p{i}", p)
+            if i in (2, 4):
+                late.append((hosts[i % len(hosts)], f"p{i}", p))      # attached after the module tree has already been used once
+            else:
+                setattr(hosts[i % len(hosts)], f"p{i}", p)
             self.params.append(p)
+        m.parameters(); m.zero_grad(); m.num_params()                 # the tree is queried before it is complete (a head is added later)
+        for host_, name_, p_ in late:
+            setattr(host_, name_, p_)
         self.module = m
         self.params[1].requires_grad = False            # frozen while the optimizers are constructed (fine-tuning schedules do this) ...
         self.opt = ns.optim.SGD([p for p, l in zip(self.params, LEAVES) if l["req"]], lr=0.1)
